@@ -4740,8 +4740,9 @@ _trait_delegate(trait_object *trait, PyObject *args)
         trait->flags &= ~TRAIT_MODIFY_DELEGATE;
     }
 
-    trait->delegate_name = delegate_name;
-    trait->delegate_prefix = delegate_prefix;
+    /* Release whatever an earlier call stored in these fields. */
+    Py_XSETREF(trait->delegate_name, delegate_name);
+    Py_XSETREF(trait->delegate_prefix, delegate_prefix);
     if ((prefix_type < 0) || (prefix_type > 3)) {
         prefix_type = 0;
     }
@@ -4872,12 +4873,13 @@ _trait_set_property(trait_object *trait, PyObject *args)
         trait->setattr = setattr_property_handlers[set_n];
     }
 
-    trait->delegate_name = get;
-    trait->delegate_prefix = set;
-    trait->py_validate = validate;
+    /* Release whatever an earlier call stored in these fields. */
     Py_INCREF(get);
     Py_INCREF(set);
     Py_INCREF(validate);
+    Py_XSETREF(trait->delegate_name, get);
+    Py_XSETREF(trait->delegate_prefix, set);
+    Py_XSETREF(trait->py_validate, validate);
     Py_INCREF(Py_None);
     return Py_None;
 }
@@ -4893,21 +4895,23 @@ trait_clone(trait_object *trait, trait_object *source)
     trait->getattr = source->getattr;
     trait->setattr = source->setattr;
     trait->post_setattr = source->post_setattr;
-    trait->py_post_setattr = source->py_post_setattr;
     trait->validate = source->validate;
-    trait->py_validate = source->py_validate;
     trait->default_value_type = source->default_value_type;
-    trait->default_value = source->default_value;
-    trait->delegate_name = source->delegate_name;
-    trait->delegate_prefix = source->delegate_prefix;
     trait->delegate_attr_name = source->delegate_attr_name;
-    trait->handler = source->handler;
-    Py_XINCREF(trait->py_post_setattr);
-    Py_XINCREF(trait->py_validate);
-    Py_XINCREF(trait->delegate_name);
-    Py_XINCREF(trait->default_value);
-    Py_XINCREF(trait->delegate_prefix);
-    Py_XINCREF(trait->handler);
+    /* Take the new references first (the source may be the trait itself),
+       then release what the trait held before. */
+    Py_XINCREF(source->py_post_setattr);
+    Py_XINCREF(source->py_validate);
+    Py_XINCREF(source->delegate_name);
+    Py_XINCREF(source->default_value);
+    Py_XINCREF(source->delegate_prefix);
+    Py_XINCREF(source->handler);
+    Py_XSETREF(trait->py_post_setattr, source->py_post_setattr);
+    Py_XSETREF(trait->py_validate, source->py_validate);
+    Py_XSETREF(trait->delegate_name, source->delegate_name);
+    Py_XSETREF(trait->default_value, source->default_value);
+    Py_XSETREF(trait->delegate_prefix, source->delegate_prefix);
+    Py_XSETREF(trait->handler, source->handler);
 }
 
 static PyObject *
